@@ -13,7 +13,7 @@ import logging
 
 import sansldap
 
-from . import ber, rfc4511, values
+from . import ber, rfc4511, safe, values
 from .model import Model
 
 
@@ -134,7 +134,7 @@ class World:
         self.stats[k] = self.stats.get(k, 0) + n
 
     def note(self, rec):
-        self.h.update(json.dumps(rec, sort_keys=True, default=str).encode())
+        self.h.update(safe.dumps(rec, sort_keys=True, default=str).encode())
         self.h.update(b"\n")
 
     def digest(self):
